@@ -3,8 +3,10 @@
 with the library's own constructors.  All randomness comes from the `rng` argument.
 
 The generators stay inside the constructible domain the theorems of C09 quantify over (`wf` in
-`lean/CpProofs/Opp.lean`); the excluded points (zero-valued flag member, references that differ,
-embedded NUL, ...) are exercised separately by `harness/props/c09.py`."""
+`lean/CpProofs/Opp.lean`); the excluded points (references that differ, embedded NUL, a second part
+of the MySQL auth plugin data that the capabilities do not call for, ...) are exercised separately by
+`harness/props/c09.py`.  The zero-valued member `RDPProtocol.RDP` is inside the domain: the
+constructor drops it, `{RDP}` and `set()` are one value."""
 
 
 def rbytes(rng, n):
@@ -66,21 +68,91 @@ def mysql_ssl_request(rng):
 
 
 def mysql_handshake_v10(rng):
+    """the three kinds of greeting: CLIENT_PLUGIN_AUTH (5.5.7 and later: a second part of 13..247 bytes, its length on
+    the wire, and the plugin name), CLIENT_SECURE_CONNECTION alone (4.1 .. 5.5.6: 13 bytes, the length octet is a
+    filler), neither (no second part)"""
     from cryptoparser.tls.mysql import (MySQLHandshakeV10, MySQLCapability, MySQLCharacterSet, MySQLStatusFlag,
                                         MySQLVersion)
     caps = subset(rng, MySQLCapability)
-    if rng.random() < 0.5:
+    kind = rng.choice(['plugin', 'plugin', 'secure', 'secure', 'neither', 'any'])
+    if kind == 'plugin':
         caps.add(MySQLCapability.CLIENT_PLUGIN_AUTH)
-    plugin = MySQLCapability.CLIENT_PLUGIN_AUTH in caps
+    elif kind == 'secure':
+        caps.discard(MySQLCapability.CLIENT_PLUGIN_AUTH)
+        caps.add(MySQLCapability.CLIENT_SECURE_CONNECTION)
+    elif kind == 'neither':
+        caps.discard(MySQLCapability.CLIENT_PLUGIN_AUTH)
+        caps.discard(MySQLCapability.CLIENT_SECURE_CONNECTION)
     kwargs = {}
-    if plugin:
-        kwargs['auth_plugin_data_2'] = rbytes(rng, rng.choice([0, 1, 12, 13, 13, 21, 247, rng.randrange(248),
-                                                             rng.randrange(13, 248), rng.randrange(13, 248)]))
-        kwargs['auth_plugin_name'] = ascii_text(rng, 30)
+    if MySQLCapability.CLIENT_PLUGIN_AUTH in caps:
+        n = rng.choice([13, 13, 14, 21, 247, 246, rng.randrange(13, 248), rng.randrange(13, 248)])
+        kwargs['auth_plugin_data_2'] = rbytes(rng, n - 1) + rng.choice([b'\x00', rbytes(rng, 1)])
+        kwargs['auth_plugin_name'] = rng.choice(['mysql_native_password', 'caching_sha2_password', ascii_text(rng, 30),
+                                                 ascii_text(rng, 30)])
+    elif MySQLCapability.CLIENT_SECURE_CONNECTION in caps:
+        kwargs['auth_plugin_data_2'] = rbytes(rng, 12) + rng.choice([b'\x00', b'\x00', rbytes(rng, 1)])
     return MySQLHandshakeV10(
         protocol_version=rng.choice(list(MySQLVersion)), server_version=ascii_text(rng, 40),
         connection_id=nat(rng, 32), auth_plugin_data=rbytes(rng, 8), capabilities=caps,
         character_set=rng.choice(list(MySQLCharacterSet)), states=subset(rng, MySQLStatusFlag), **kwargs)
+
+
+def mysql_handshake_v10_refused(rng):
+    """constructible greetings whose second part is not the one the capabilities call for: compose() has to refuse them
+    (InvalidValue); used by the probes of C09, not part of the round-trip domain"""
+    from cryptoparser.tls.mysql import MySQLHandshakeV10, MySQLCapability, MySQLVersion
+    kind = rng.choice(['plugin-short', 'plugin-none', 'plugin-long', 'secure-none', 'secure-other', 'neither-some'])
+    caps = {MySQLCapability.CLIENT_SSL}
+    kwargs = {}
+    if kind.startswith('plugin'):
+        caps |= {MySQLCapability.CLIENT_PLUGIN_AUTH, rng.choice([MySQLCapability.CLIENT_SECURE_CONNECTION,
+                                                                 MySQLCapability.CLIENT_SSL])}
+        kwargs['auth_plugin_name'] = 'mysql_native_password'
+        if kind == 'plugin-short':
+            kwargs['auth_plugin_data_2'] = rbytes(rng, rng.randrange(0, 13))
+        elif kind == 'plugin-long':
+            kwargs['auth_plugin_data_2'] = rbytes(rng, rng.choice([248, 249, 300]))
+    elif kind.startswith('secure'):
+        caps.add(MySQLCapability.CLIENT_SECURE_CONNECTION)
+        if kind == 'secure-other':
+            kwargs['auth_plugin_data_2'] = rbytes(rng, rng.choice([0, 1, 12, 14, 21, rng.randrange(14, 60)]))
+    else:
+        kwargs['auth_plugin_data_2'] = rbytes(rng, rng.randrange(1, 30))
+    return MySQLHandshakeV10(protocol_version=MySQLVersion.MYSQL_10, server_version='5.5.5', connection_id=nat(rng, 32),
+                             auth_plugin_data=rbytes(rng, 8), capabilities=caps, **kwargs)
+
+
+def raw_mysql_greeting(rng):
+    """HandshakeV10 as servers put it on the wire, laid out here from the protocol documentation (no library call):
+    a pre-5.5.7 greeting (CLIENT_SECURE_CONNECTION without CLIENT_PLUGIN_AUTH, length octet 00 - or, off the
+    documentation, any filler value -, 12 scramble bytes and a NUL), and greetings with CLIENT_PLUGIN_AUTH whose length
+    octet is 21, 8, 0, 255, below 8 or arbitrary, followed by MAX(13, len - 8) bytes (sometimes by len - 8 bytes or by
+    too few: the malformed side)"""
+    import struct
+    kind = rng.choice(['pre557', 'pre557', 'pre557-filler', 'plugin-21', 'plugin-21', 'plugin-8', 'plugin-0', 'plugin-255',
+                       'plugin-low', 'plugin-any', 'neither'])
+    caps = rng.getrandbits(25) & ~(1 << 19 | 1 << 15)
+    if kind.startswith('pre557'):
+        caps |= 1 << 15
+    elif kind.startswith('plugin'):
+        caps |= 1 << 19
+        if rng.random() < 0.8:
+            caps |= 1 << 15
+    adl = {'pre557': 0, 'pre557-filler': rng.randrange(1, 256), 'plugin-21': 21, 'plugin-8': 8, 'plugin-0': 0,
+           'plugin-255': 255, 'plugin-low': rng.randrange(1, 8), 'plugin-any': rng.randrange(256), 'neither': 0}[kind]
+    version = rng.choice([b'5.1.73', b'5.0.96-log', b'5.5.62', b'8.0.36', b'5.5.5-10.6.12-MariaDB', b''])
+    out = bytes([rng.choice([10, 10, 10, 9])]) + version + b'\x00' + struct.pack('<I', rng.getrandbits(32)) + \
+        rbytes(rng, 8) + b'\x00'
+    out += struct.pack('<HBHH', caps & 0xffff, rng.choice([8, 33, 45, 255]), rng.getrandbits(16) & 0x7ffb, caps >> 16)
+    out += bytes([adl]) + bytes(10)
+    if kind.startswith('pre557'):
+        out += rbytes(rng, 12) + b'\x00'
+    elif kind.startswith('plugin'):
+        r = rng.random()
+        n = max(13, adl - 8) if r < 0.7 else max(0, adl - 8) if r < 0.85 else rng.randrange(0, 13)
+        out += bytes(rng.randrange(1, 256) for _ in range(max(0, n - 1))) + (b'\x00' if n else b'')
+        out += rng.choice([b'mysql_native_password', b'caching_sha2_password', b'']) + rng.choice([b'\x00', b'\x00', b''])
+    return out
 
 
 # ------------------------------------------------------------------------------------------------ RDP
@@ -108,7 +180,7 @@ def cotp_confirm(rng):
 
 def _protocols(rng):
     from cryptoparser.tls.rdp import RDPProtocol
-    return subset(rng, [p for p in RDPProtocol if p.value != 0])
+    return subset(rng, RDPProtocol)
 
 
 def rdp_neg_request(rng):
@@ -209,6 +281,9 @@ ALL_GENERATORS = [
 # in use was built without `oppClasses` (then the family stays out of their way instead of producing BAD-OP lines)
 from harness import canon_opp  # noqa: E402  pylint: disable=wrong-import-position
 MODELLED_GENERATORS = list(ALL_GENERATORS) if canon_opp.driver_has_opp() else []
+
+# wire inputs no compose() of the library produces (picked up by harness/clsrun.all_raw_inputs and by C09)
+RAW_INPUTS = [('MySQLHandshakeV10', raw_mysql_greeting)] if MODELLED_GENERATORS else []
 
 # stream framing units among them (C03 self-delimitation, C04 prefix rejection)
 FRAMING_MODELLED = {'MySQLRecord', 'TPKT', 'OpenVpnPacketWrapperTcp', 'SslRequest'} if MODELLED_GENERATORS else set()
